@@ -26,6 +26,26 @@ def cases():
             numbered = bool(getattr(p, "numbered", False))
             out.append({"t": "dec", "o": o, "kind": kind, "res": type(p).__name__,
                         "seq": p.sequence_number if numbered else 0, "enc": p.to_knx()})
+    # ... and the same octets inside a link frame: the destination kind is what the frame parser derives from the destination address,
+    # whatever the other control bits say (system broadcast, priority, repetition, acknowledge request, error, hop count)
+    from xknx.cemi import CEMIFrame, CEMILData
+    from xknx.exceptions import CouldNotParseCEMI, UnsupportedCEMIMessage
+
+    dst = {"individual": (0x60, b"\x11\x02"), "group": (0xE0, b"\x09\x01"), "broadcast": (0xE0, b"\x00\x00")}
+    for kind, (ctrl2, d) in dst.items():
+        for ctrl1 in (0xBC, 0xAC, 0x90, 0xB1, 0x3C):              # 0xAC: system-broadcast bit cleared (= system broadcast); others: priority / repeat / ack / error / extended
+            for o in range(256):
+                for body in (bytes([o]), bytes([o, 0x00]), bytes([o, 0x80, 0x01])):        # control TPDU (no APDU), data TPDU with a short / longer APDU
+                    raw = bytes([0x29, 0x00, ctrl1, ctrl2, 0x11, 0x05]) + d + bytes([len(body) - 1]) + body
+                    try:
+                        fr = CEMIFrame.from_knx(raw)
+                    except (CouldNotParseCEMI, UnsupportedCEMIMessage):
+                        continue                      # refused by the frame layer (C12 / C13 judge that)
+                    if not isinstance(fr.data, CEMILData):
+                        continue
+                    p = fr.data.tpci
+                    numbered = bool(getattr(p, "numbered", False))
+                    out.append({"t": "dec", "o": o, "kind": kind, "res": type(p).__name__, "seq": p.sequence_number if numbered else 0, "enc": p.to_knx(), "via": "frame"})
     pdus = [(T.TDataGroup, None, ["group"]), (T.TDataBroadcast, None, ["broadcast"]),
             (T.TDataTagGroup, None, ["group", "broadcast"]), (T.TDataIndividual, None, ["individual"]),
             (T.TConnect, None, ["individual"]), (T.TDisconnect, None, ["individual"])]
